@@ -40,7 +40,10 @@ def _event_text(kind, own, d):
         return 'UPLOAD %s UNKNOWN %s descid%d HSDIR_INDEX=x' % (addr, hsdir, d)
     if kind == 1:
         return 'UPLOADED %s UNKNOWN %s' % (addr, hsdir)
-    return 'FAILED %s UNKNOWN %s descid%d REASON=UPLOAD_REJECTED' % (addr, hsdir, d)
+    # Tor gives different reasons (UPLOAD_REJECTED when the directory refused, UNEXPECTED when it could not be reached, ...)
+    # and older versions none at all: the reason varies with the directory
+    reason = [' REASON=UPLOAD_REJECTED', ' REASON=UNEXPECTED', ''][d % 3]
+    return 'FAILED %s UNKNOWN %s descid%d%s' % (addr, hsdir, d, reason)
 
 
 def _onion_handler(ln):
